@@ -248,6 +248,9 @@ func (s *Scope) Decorate(decorator interface{}, opts ...DecorateOption) error {
 		return newErrInvalidInput(
 			fmt.Sprintf("must provide decorator function, got %v (type %v)", decorator, dtype), nil)
 	}
+	if reflect.ValueOf(decorator).IsNil() {
+		return newErrInvalidInput(fmt.Sprintf("can't decorate with a nil function of type %v", dtype), nil)
+	}
 
 	var options decorateOptions
 	for _, opt := range opts {
